@@ -46,6 +46,11 @@ Proof.
   apply Rplus_lt_0_compat; apply Rmult_lt_0_compat; auto; apply exp_pos.
 Qed.
 
+(* normalize() may evaluate the constant as a sum of logarithms (what the code does since 0f257d1): the same number *)
+Theorem c14_normal_const_sum_of_logs : forall v, Forall (fun a => 0 < a) v ->
+  normal_const v = / 2 * (sumR (map ln v) + INR (length v) * ln (2 * PI)).
+Proof. exact normal_const_sum_of_logs. Qed.
+
 Print Assumptions c14_normal_pdf.
 Print Assumptions c14_laplace_pdf.
 Print Assumptions c14_normal_pushforward.
@@ -53,3 +58,4 @@ Print Assumptions c14_laplace_pushforward.
 Print Assumptions c14_logspace_pushforward.
 Print Assumptions c14_composite_product.
 Print Assumptions c14_mixture_density.
+Print Assumptions c14_normal_const_sum_of_logs.
